@@ -9,9 +9,10 @@ SOURCES = ['src/opus_decoder.c', 'src/opus.c', 'src/opus_multistream_decoder.c',
            'silk/dec_API.c', 'silk/control.h']
 REQUIRED_THEOREMS = [
     'OpusProps.C01.DecInv_init', 'OpusProps.C01.DecInv_step', 'OpusProps.C01.decodeNative_history',
-    'OpusProps.C01.decodeNative_ret', 'OpusProps.C01.decodeNative_oracle_args', 'OpusProps.C01.decodeNative_writes',
-    'OpusProps.C01.decodeNative_duration', 'OpusProps.C01.decodeApi_ret', 'OpusProps.C01.plc_chunk_recursion_depth',
-    'OpusProps.C01.msDecode_ret',
+    'OpusProps.C01.decodeNative_ret', 'OpusProps.C01.decodeNative_ret_pure', 'OpusProps.C01.decodeNative_oracle_args',
+    'OpusProps.C01.decodeNative_writes', 'OpusProps.C01.decodeNative_duration', 'OpusProps.C01.decodeNative_plc_duration',
+    'OpusProps.C01.decodeNative_error_leaves_state', 'OpusProps.C01.decodeApi_ret',
+    'OpusProps.C01.plc_chunk_recursion_depth',
 ]
 RULE = ('random call histories on one decoder state (decode of real-encoder packets of all modes/bandwidths/durations, '
         'bit-flipped / truncated / extended / random packets, synthetic framing of every code incl. self-delimited, NULL and '
